@@ -341,6 +341,7 @@ def run(chk):
             chk.broken('model-pattern', 'the model of the two outdated patterns disagrees with re.match on %r: %r vs %r' % (m, got, mt.group('ver') if mt else None))
     relogin(chk)
     takeover(chk)
+    login_write_fault(chk)
     chk.assumptions += ['RSA and the session service are oracles: the harness opens the response with the private key; join() is a recording stub',
                         'json.loads is library code: the model starts from the extracted message', 'os.urandom is replaced by a recording fake so that the server side can be encrypted beforehand']
 
@@ -427,6 +428,56 @@ def relogin(chk):
                           'protocol %d: second login on a Connection whose first session %s (second connect: %s): %s is %s; on a fresh object %s' % (
                               pv, 'reached play and lost the stream' if ends_in_play else 'was refused by the server', how, k, str(reused.get(k))[:80], str(fresh.get(k))[:80]))
     chk.sample('relogin', {'first': 'set compression, login disconnect', 'second_connect': 'handler', 'compared': 'client bytes, reactor, compression state'}, k=1)
+
+
+def login_write_fault(chk):
+    """The server refuses the login and closes without waiting for the answer to its plugin request: the answer's write fails,
+    and the disconnect packet is read afterwards.  The refusal must still surface as the login-failure error carrying the
+    server's message (or the version-mismatch error for the 'outdated' messages) - never as the socket error, never silently."""
+    from minecraft.networking.connection import Connection
+    from minecraft.exceptions import LoginDisconnect, VersionMismatch
+    import errno
+    rng = chk.rng
+    faults = [BrokenPipeError(errno.EPIPE, 'Broken pipe'), ConnectionResetError(errno.ECONNRESET, 'reset'), ConnectionAbortedError(errno.ECONNABORTED, 'aborted'), OSError(errno.EHOSTUNREACH, 'unreachable')]
+    msgs = [('go away', None), ('Outdated client! Please use 1.12.2', '1.12.2'), ("Outdated server! I'm still on 1.8", '1.8')]
+    for pv in (385, 391, 578, 707, 757):
+        ids = proto.Ids(pv)
+        for fault in faults:
+            for thr in (None, 64):
+                text, ver = rng.choice(msgs)
+                pre = [proto.frame(ids.set_compression, proto.varint(thr))] if thr is not None else []
+                first = b''.join(pre) + proto.frame(ids.plugin_request, proto.varint(7) + proto.string('x:y') + b'data', thr)
+                second = proto.frame(ids.login_disconnect, proto.string(json.dumps({'text': text})), thr)
+                net = sim.Net([sim.Server([first], end='idle')]).install()
+                excs, nsend = [], [0]
+                orig_send = sim.SimSocket.send
+
+                def send(self_, data, orig=orig_send):
+                    nsend[0] += 1
+                    if nsend[0] > 4:                  # handshake and login start went through; the peer is gone afterwards
+                        if nsend[0] == 5:
+                            net.servers[0].chunks.append(second)
+                        raise fault
+                    return orig(self_, data)
+                sim.SimSocket.send = send
+                try:
+                    conn = Connection('localhost', 25565, username='user', allowed_versions={pv}, handle_exception=lambda e, i: excs.append(e))
+                    conn.connect()
+                    net.run_threads(conn)
+                finally:
+                    sim.SimSocket.send = orig_send
+                    net.uninstall()
+                case = {'proto': pv, 'threshold': thr, 'write_error': type(fault).__name__, 'message': text}
+                chk.count('login-write-fault', case, True)
+                e = excs[-1] if excs else None
+                if ver is None:
+                    ok = isinstance(e, LoginDisconnect) and not isinstance(e, VersionMismatch) and text in str(e)
+                else:
+                    ok = isinstance(e, VersionMismatch) and getattr(e, 'server_version', None) == ver
+                if not ok:
+                    chk.violation('login-write-fault', 'login-write-fault:%d:%s:%s' % (pv, type(fault).__name__, ver), {'case': case, 'observed': [exn_name(x) + ': ' + str(x)[:80] for x in excs]},
+                                  'protocol %d: the server refused the login (%r) and closed; the pending plugin answer failed with %s; reported: %s - expected %s' % (
+                                      pv, text, type(fault).__name__, [exn_name(x) for x in excs] or 'nothing', 'VersionMismatch for ' + ver if ver else 'LoginDisconnect carrying the message'))
 
 
 def takeover(chk):
